@@ -20,6 +20,7 @@ import (
 //	D <n> <ncols> { <id> <cell>*ncols }*n                       dataset (rows in ascending id order)
 //	Q <bits> <nsort> { <col|id> <type> <a|d> }* <skip> <limit>   query on the current dataset
 //	X ...                                                        same, dataset contains NaN sort keys
+//	G / P ...                                                    tag masks / QueryWithCursorC over a cursor provider (c02prov.go)
 //
 // impl line for Q/X:  query=<count>:<ids> iter=<ids> wc=<count>:<ids>   (ERR / PANIC instead of a value)
 // The shared q* helpers (datasets, cells, bolt loading) are also used by c19.go.
@@ -933,6 +934,10 @@ func runC02(o *opts) error {
 	if err := c19LongEmitC02(o, qb, cases, impl, bump, emit); err != nil {
 		return err
 	}
+	// QueryWithCursorC over every cursor provider of the library (c02prov.go; random stream of its own)
+	if err := c02pEmit(o, qb, cases, impl, bump); err != nil {
+		return err
+	}
 	writeJSON(o.out, "stats.json", stats)
 	return nil
 }
@@ -948,6 +953,7 @@ func c02Replay(o *opts, qb *qBolt, path string, cases, impl *lineWriter) error {
 	var fam *c02Family // set by an L line: the dataset is shared by a chain of stores
 	view := c02View{}
 	objs := c02NewObjects()
+	var prov *c02pWorld // set by a G line: the rows carry tags and were created through the library
 	for _, line := range strings.Split(string(data), "\n") {
 		f := strings.Fields(line)
 		if len(f) == 0 {
@@ -964,8 +970,30 @@ func c02Replay(o *opts, qb *qBolt, path string, cases, impl *lineWriter) error {
 			}
 			fam, view = c02PlainFamily(d, store), c02View{}
 			objs.setEntities(fam, view)
+			prov = nil
 			cases.line("%s", line)
 			impl.line("D")
+		case "G":
+			if d == nil || len(f) != 2 {
+				return fmt.Errorf("tag masks before dataset")
+			}
+			masks, err := c02pParseMasks(f[1], len(d.rows))
+			if err != nil {
+				return err
+			}
+			if prov, err = qb.c02pLoad(d, masks); err != nil {
+				return err
+			}
+			cases.line("%s", line)
+			impl.line("G")
+		case "P":
+			res, text, err := c02pReplayQuery(qb, prov, f)
+			if err != nil {
+				return err
+			}
+			cases.line("%s", line)
+			impl.line("%s", res)
+			fmt.Fprintf(os.Stderr, "replay query text: %s\n", text)
 		case "L":
 			if d == nil || len(f) != 3 {
 				return fmt.Errorf("layout before dataset")
